@@ -352,6 +352,28 @@ let () = reg "qcoords" (fun args ->
     "ff: " ^ show (ffl prog (vzero, cempty)) ^ (if unroll = "1" then " ex: " ^ show (execl prog (vzero, cempty)) else "")
   | _ -> "BAD")
 
+(* ---------------- target lists (TargetList.v) ---------------- *)
+(* tgtread HEX -> "OK d,d,... | HEXREST | HEX of write_targets" (d = GateTarget::data as the implementation stores it) or "ERR" *)
+let target_data (t : target) : int =
+  let v n = int_of_string (decimal_of_n n) in
+  match t with
+  | TQubit (inv, q) -> v q lor (if inv then 1 lsl 31 else 0)
+  | TPauli (inv, p, q) -> v q lor (if inv then 1 lsl 31 else 0) lor (match p with PX -> 1 lsl 30 | PZ -> 1 lsl 29 | PY -> (1 lsl 30) lor (1 lsl 29))
+  | TRec k -> v k lor (1 lsl 28)
+  | TSweep k -> v k lor (1 lsl 26)
+  | TCombiner -> 1 lsl 27
+let () = reg "tgtread" (fun args ->
+  match args with
+  | [h] ->
+    let bytes = List.map n_of_int (ints_of_hex h) in
+    (match read_targets (nat_of_int (List.length bytes + 2)) true bytes with
+     | RErr -> "ERR"
+     | ROk (ts, rest) ->
+       "OK " ^ Stdlib.String.concat "," (List.map (fun t -> string_of_int (target_data t)) ts) ^ " | " ^
+       hex_of_ints (List.map (fun n -> int_of_string (decimal_of_n n)) rest) ^ " | " ^
+       hex_of_ints (List.map (fun n -> int_of_string (decimal_of_n n)) (write_targets ts)))
+  | _ -> "BAD")
+
 let () =
   (try
      while true do
